@@ -79,6 +79,26 @@ fn c08_gen_discount_special() {
     assert!(RegretParams::gen_discount(it, f64::INFINITY) == 1.0, "C08 discount: exponent +inf must give factor 1");
 }
 
+/// gen_discount for finite non-zero exponents: never NaN, always in [0,1], whatever the magnitude of
+/// exponent and iteration (libm by contract: ln finite, exp monotone with over/underflow, powf any
+/// non-negative value incl. +inf, ln_1p in [0, min(x, 0.7)] on [0,1]).
+#[kani::proof]
+#[kani::stub(f64::ln, ln_model)]
+#[kani::stub(f64::exp, exp_model)]
+#[kani::stub(f64::powf, powf_unbounded)]
+#[kani::stub(f64::ln_1p, ln_1p_model)]
+fn c05_gen_discount_finite_total() {
+    let a: f64 = kani::any();
+    kani::assume(a.is_finite() && a != 0.0 && a >= -1000.0 && a <= 1000.0);
+    let it: u64 = kani::any();
+    kani::assume(it >= 1);
+    let g = RegretParams::gen_discount(it, a);
+    kani::cover!(a == 1000.0 && it > 1000, "large exponent, late iteration");
+    kani::cover!(a < 0.0, "negative exponent");
+    assert!(!g.is_nan(), "C05 discount: discount factor is NaN for a finite exponent");
+    assert!(g >= 0.0 && g <= 1.0, "C05 discount: discount factor outside [0,1]");
+}
+
 /// discount_cum_regret with exponents in {-inf, 0, +inf}: positive entries scaled by the factor of
 /// the positive exponent, negative ones by that of the negative exponent, zeros untouched.
 #[kani::proof]
